@@ -102,6 +102,7 @@ def run(ctx):
     regs = [e for e in events if e.get("e") == "Region"]
     ev.cov["region_events"] = len(regs)
     ev.cov["region_max_fill"] = sorted(set("%s:%d/%d" % (e["f"], e["hwm"], e["size"]) for e in regs))[:40]
+    blob_histories(ctx)
     if not ctx.quick:
         valgrind_pass(ctx)
     ev.cov["evaluations"] = ncalls
@@ -114,6 +115,78 @@ def run(ctx):
     ev.sample({"suites": [s["name"] for s in suites.SUITES], "variants": variants})
     ev.assume("sensor: AddressSanitizer + UBSan (alignment check off: the library accesses octet buffers as words by design) + utilAssert; "
               "a TLA+ model does not decide memory safety, it supplies the systematic behaviour space and validates the event trace")
+
+
+def blob_histories(ctx):
+    """spec/sm/Blob.tla: TLC explores the create / resize / fill / wipe / copy / close histories over sizes around the page
+    size and the header, with the predicted observation after every step; the real blob functions replay them in the
+    page-rounded and in the exact-size sanitizer builds (Fill touches every octet the caller owns)."""
+    import glob
+    gdir = ctx.path("blob_gen")
+    os.makedirs(gdir, exist_ok=True)
+    cfg = None
+    if not ctx.quick:
+        cfg = ctx.path("blob_full.cfg")
+        with open(cfg, "w") as f:
+            f.write(open(vlib.find_spec("MC_Blob")[:-4] + ".cfg").read().replace("SizesQuick", "SizesFull"))
+    r = vlib.tlc("MC_Blob", cfg, env={"GEN_DIR": gdir}, timeout=1500, workers=8, quiet=True)
+    if vlib.tlc_infra_failed(r) or r.rc != 0:
+        ctx.note_inconclusive("MC_Blob gave no verdict / violates its own invariants: rc=%s %s" % (r.rc, (r.violation or r.error or "")[:300]))
+        return
+    cases = [json.load(open(f)) for f in sorted(glob.glob(os.path.join(gdir, "*.json")))]
+    ctx.ev.cov["blob_model_states"] = r.distinct
+    ctx.ev.cov["blob_histories"] = len(cases)
+    cmds = "".join("blob script=%s\n" % c["script"] for c in cases).encode()
+    nsteps = 0
+    for var in ("asanpage", "asan", "asanw32"):
+        drv = vlib.harness("drv_blob", ["drv_blob.c"], var)
+        out_path = ctx.path("blob_%s.ndjson" % var)
+        rc, _, err = vlib.run_harness(drv, [], stdin=cmds, out_path=out_path, timeout=1800)
+        rows = []
+        for l in open(out_path):
+            try:
+                rows.append(json.loads(l))
+            except ValueError:
+                pass
+        if rc != 0:
+            kind, site = classify(err, rc)
+            nxt = cases[len(rows)]["script"] if len(rows) < len(cases) else "?"
+            ctx.violation("blob:%s:%s:%s" % (kind, site, var), "%s build: %s at %s while replaying the blob history %s\n%s" % (var, kind, site, nxt, err[-1800:]),
+                          {"variant": var, "script": nxt, "stderr": err[-6000:]})
+        for c, x in zip(cases, rows):
+            for i, (e, o) in enumerate(zip(c["obs"], x["obs"])):
+                nsteps += 1
+                bad = blob_step_bad(e, o)
+                if bad:
+                    tok = c["script"].split(".")[i]
+                    ctx.violation("blob:%s:%s:%s" % (tok[0], bad, var), "%s build: blob history %s, step %d (%s): %s differs from what blob.h promises"
+                                  % (var, c["script"], i + 1, tok, bad), {"variant": var, "script": c["script"], "step": i + 1, "expected": e, "observed": o})
+                    break
+    ctx.ev.cov["blob_steps_compared"] = nsteps
+
+
+def blob_step_bad(e, o):
+    """expected observation (model) against the observed one; returns the name of the first differing field"""
+    for side in ("a", "b"):
+        kind = e["k" + side]
+        if o["s" + side] != e["s" + side]:
+            return "size-" + side
+        if not o["v" + side]:
+            return "valid-" + side
+        if kind == "pat":
+            if o["p" + side] != e["p" + side] or o["z" + side] != e["z" + side]:
+                return "content-" + side
+        elif kind == "junk":
+            if o["t" + side] < e["z" + side]:
+                return "zero-tail-" + side
+    if e["same"] == "y" and not o["same"]:
+        return "descriptor"
+    if e["eq"] in ("T", "F") and (o["eq"] == 1) != (e["eq"] == "T"):
+        return "blobEq"
+    want = {"<": -1, ">": 1, "=": 0}.get(e["cmp"])
+    if want is not None and o["cmp"] != want:
+        return "blobCmp"
+    return None
 
 
 def valgrind_pass(ctx):
